@@ -56,6 +56,35 @@ FN_ID = {id(v): k for k, v in FNS.items()}
 NT2 = collections.namedtuple('NT2', ['n0', 'n1'])
 
 
+class T0(fdl.Tag):
+  """Base tag (bit 0)."""
+
+
+class T1(T0):
+  """Subclass of T0 (bit 1)."""
+
+
+class T2(fdl.Tag):
+  """Unrelated tag (bit 2)."""
+
+
+TAGS = [T0, T1, T2]
+
+
+def tags_of(mask):
+  return [t for b, t in enumerate(TAGS) if mask & (1 << b)]
+
+
+def tag_mask(tags):
+  m = 0
+  for t in tags:
+    if t in TAGS:
+      m |= 1 << TAGS.index(t)
+    else:
+      m |= 1 << 7       # a tag the model does not know
+  return m
+
+
 def slot_name(s):
   return f's{s}'
 
@@ -90,8 +119,11 @@ class Realizer:
     k = o['k']
     items = o['items']
     if k in ('config', 'partial'):
-      kwargs = {slot_name(it['key']): self.val(it['val']) for it in items}
+      kwargs = {slot_name(it['key']): self.val(it['val']) for it in items if it['val'] != 0}
       r = self.types[k](self.fn_for(i, o), **kwargs)
+      for it in items:
+        for t in tags_of(it.get('tg', 0)):
+          fdl.add_tag(r, slot_name(it['key']), t)
     elif k == 'list':
       r = [self.val(it['val']) for it in items]
     elif k == 'tuple':
@@ -145,12 +177,18 @@ class Projector:
                    'argfactory' if isinstance(x, fdl.ArgFactory) else
                    'tagged' if isinstance(x, config_lib.TaggedValueCls) else 'config')
       node['fn'] = FN_ID.get(id(x.__fn_or_cls__), -1)
-      for name, v in fdl.ordered_arguments(x).items():
-        node['items'].append({'key': _slot_of(name), 'val': self.val(v)})
-      tags = {str(_slot_of(n)): sorted(t.__name__ for t in ts)
-              for n, ts in x.__argument_tags__.items() if ts}
-      if tags:
-        node['tags'] = tags
+      args = dict(fdl.ordered_arguments(x))
+      for n, ts in x.__argument_tags__.items():
+        if ts and n not in args:
+          args[n] = None           # tagged, no value
+      def order(n):
+        sl = _slot_of(n)
+        return (0, sl) if isinstance(sl, int) else (1, str(n))
+      for name in sorted(args, key=order):
+        v = args[name]
+        node['items'].append({'key': _slot_of(name),
+                              'val': 0 if v is None else self.val(v),
+                              'tg': tag_mask(x.__argument_tags__.get(name, ()))})
     elif inst is not None:
       node['k'] = 'inst'
       node['fn'] = inst.fn_id if isinstance(inst.fn_id, int) else -1
@@ -159,19 +197,19 @@ class Projector:
           v = inst.args[name]
           if isinstance(v, int) and not isinstance(v, bool) and v >= 1000:
             continue     # the callable's own default applied: parameter was not passed
-          node['items'].append({'key': _slot_of(name), 'val': self.val(v)})
+          node['items'].append({'key': _slot_of(name), 'val': self.val(v), 'tg': 0})
     elif isinstance(x, list):
       node['k'] = 'list'
       for j, v in enumerate(x):
-        node['items'].append({'key': j, 'val': self.val(v)})
+        node['items'].append({'key': j, 'val': self.val(v), 'tg': 0})
     elif isinstance(x, tuple):
       node['k'] = 'ntuple' if hasattr(x, '_fields') else 'tuple'
       for j, v in enumerate(x):
-        node['items'].append({'key': j, 'val': self.val(v)})
+        node['items'].append({'key': j, 'val': self.val(v), 'tg': 0})
     elif isinstance(x, dict):
       node['k'] = 'dict'
       for kk, v in x.items():
-        node['items'].append({'key': _key_of(kk), 'val': self.val(v)})
+        node['items'].append({'key': _key_of(kk), 'val': self.val(v), 'tg': 0})
     else:
       node['k'] = 'foreign:' + type(x).__name__
     return -idx
@@ -197,4 +235,4 @@ def project(root):
 
 
 def strip_tags(heap):
-  return [{k: v for k, v in o.items() if k != 'tags'} for o in heap]
+  return heap
